@@ -575,10 +575,7 @@ Lemma agree_add_return_edges_for_patch_calls m s0 s pc :
   m FCfg = false -> agree m s0 s -> agree m s0 (fst (add_return_edges_for_patch_calls s pc)).
 Proof.
   intros Hm H. unfold add_return_edges_for_patch_calls. apply agree_fold_pair; auto.
-  intros [a c] ce Ha; cbn [fst] in *.
-  repeat match goal with |- agree _ _ (fst (if ?c then _ else _)) => destruct c; cbn [fst]; auto end.
-  destruct (aget _ (fbb a)); cbn [fst]; auto. destruct (aget _ _); cbn [fst]; auto.
-  apply agree_add_return_edges_to_callee; auto.
+  intros [a c] fr Ha; cbn [fst] in *. apply agree_add_return_edges_to_callee; auto.
 Qed.
 Lemma agree_edit_byte_interval m s0 s i off len c st_ :
   m FBlocks = false -> m FIvals = false -> m FOtabs = false -> agree m s0 s -> agree m s0 (edit_byte_interval s i off len c st_).
